@@ -32,6 +32,18 @@ func genNilObs(tier string, seed int64, only string) []*Case {
 			}
 		}
 	}
+	// the partial observers and NewObserver: the other callbacks are EMPTY, not nil
+	for _, ctor := range []string{"OnNext", "OnNextWithContext", "OnError", "OnErrorWithContext", "OnComplete", "OnCompleteWithContext", "Noop", "NewObserver"} {
+		for _, s := range append(scripts, "N1@1,E1@2,E2@3,C@4", "C@1,C@2,N1@3", "E0@1,N1@2") {
+			for _, f := range faults {
+				if f != "-" && ctor != "OnNext" && ctor != "OnNextWithContext" && ctor != "NewObserver" {
+					continue
+				}
+				id++
+				out = append(out, newCase(id, "kind", "nilobs", "ctor", ctor, "src", s, "faults", f, "sub", "7"))
+			}
+		}
+	}
 	return out
 }
 
@@ -77,6 +89,44 @@ func runNilObs(c *Case) string {
 		onComplete = func(ctx context.Context) { rec.add("C/" + renderCtx(ctx)) }
 	}
 	obs := ro.NewObserverWithContext(onNext, onError, onComplete)
+	if ctor := c.get("ctor", "-"); ctor != "-" {
+		next := func(v int) {
+			k := calls
+			calls++
+			if w, ok := plan[k]; ok {
+				raise(&w)
+			}
+			rec.add("N" + renderVal(v))
+		}
+		nextC := func(ctx context.Context, v int) {
+			k := calls
+			calls++
+			if w, ok := plan[k]; ok {
+				raise(&w)
+			}
+			rec.add("N" + renderVal(v) + "/" + renderCtx(ctx))
+		}
+		switch ctor {
+		case "OnNext":
+			obs = ro.OnNext(next)
+		case "OnNextWithContext":
+			obs = ro.OnNextWithContext(nextC)
+		case "OnError":
+			obs = ro.OnError[int](func(err error) { rec.add("E" + renderErr(err)) })
+		case "OnErrorWithContext":
+			obs = ro.OnErrorWithContext[int](func(ctx context.Context, err error) { rec.add("E" + renderErr(err) + "/" + renderCtx(ctx)) })
+		case "OnComplete":
+			obs = ro.OnComplete[int](func() { rec.add("C") })
+		case "OnCompleteWithContext":
+			obs = ro.OnCompleteWithContext[int](func(ctx context.Context) { rec.add("C/" + renderCtx(ctx)) })
+		case "Noop":
+			obs = ro.NoopObserver[int]()
+		case "NewObserver":
+			obs = ro.NewObserver(next, func(err error) { rec.add("E" + renderErr(err)) }, func() { rec.add("C") })
+		default:
+			return "res " + c.id + " unsupported"
+		}
+	}
 	subCtx := ctxFromMarks(parseInts(strings.ReplaceAll(c.get("sub", "-"), ".", ",")))
 	escaped := "-"
 	func() {
